@@ -69,7 +69,7 @@ impl Scenario for MhStreams {
     }
     fn generate(&self, g: &mut Gen, _t: Tier, _i: u64) -> Value {
         let nc = g.usize(2, 64);
-        json!({"n_chains": nc, "seeded": g.bool(2, 3), "seed": crate::props::c07::special_seed(g, nc).to_string(), "proposal": *g.pick(&["isotropic", "spy"]), "user_seeded_proposal": g.bool(1, 2), "steps": g.usize(10, 40)})
+        json!({"n_chains": nc, "seeded": g.bool(2, 3), "seed": crate::props::c07::special_seed(g, nc).to_string(), "proposal": *g.pick(&["isotropic", "spy"]), "user_seeded_proposal": g.bool(1, 2), "steps": g.usize(10, 40), "pre_sampled": g.bool(1, 3), "pre_draws": g.usize(1, 3), "lag_check": nc <= 4 || g.bool(1, 12)})
     }
     fn execute(&self, p: &Value, ws: bool) -> Outcome {
         let mut o = Outcome::default();
@@ -88,6 +88,14 @@ impl Scenario for MhStreams {
             let mut prop = IsotropicGaussian::<f64>::new(0.8);
             if pb(p, "user_seeded_proposal") {
                 prop = prop.set_seed(7);
+            }
+            // a proposal object that has been used before it is handed to the sampler (whatever it buffers
+            // internally must not end up in every chain)
+            if p.get("pre_sampled").and_then(|v| v.as_bool()).unwrap_or(false) {
+                for _ in 0..p.get("pre_draws").and_then(|v| v.as_u64()).unwrap_or(1) {
+                    let _ = prop.sample(&x);
+                }
+                o.count("probe_proposal_used_before_construction", 1);
             }
             let mut s = MetropolisHastings::new(target, prop, init);
             if seeded {
@@ -147,6 +155,26 @@ impl Scenario for MhStreams {
                 if let Some((i, j)) = first_pair_equal(&all) {
                     if i < nc && j >= nc && j - nc != i {
                         o.violate("same_stream_across_roles", &format!("MH[{how}]:proposal-generator-of-one-chain-is-acceptance-generator-of-another"), format!("{nc} chains ({how}, seed {seed}): the proposal generator of chain {i} is in the same state as the acceptance generator of chain {}", j - nc));
+                    }
+                }
+            }
+            // streams that are blocks of ONE base stream overlap once a chain has drawn a block's length: the
+            // acceptance generator of chain i, advanced by 2^k draws (k = 8..21), must not be the initial
+            // generator of another chain
+            if o.violations.is_empty() && seeded && nc <= 6 && p.get("lag_check").and_then(|v| v.as_bool()).unwrap_or(false) {
+                o.count("probe_lagged_stream_overlap_checked", 1);
+                'outer: for i in 0..nc {
+                    let mut r = accs[i].clone();
+                    let mut drawn = 0u64;
+                    for k in 8..=21u32 {
+                        while drawn < (1u64 << k) {
+                            r.next_u64();
+                            drawn += 1;
+                        }
+                        if let Some(j) = (0..nc).find(|j| *j != i && accs[*j] == r) {
+                            o.violate("same_stream_at_a_lag", &format!("MH[{how}]:acceptance-streams-overlap-at-a-lag"), format!("{nc} chains (seed {seed}): the acceptance generator of chain {i} reaches the initial state of chain {j}'s after 2^{k} draws: chain {i} replays chain {j}'s acceptance draws from there on"));
+                            break 'outer;
+                        }
                     }
                 }
             }
